@@ -43,3 +43,7 @@ package rtpfb
 //@   loop 3 invariant aligned: len(acks) == offset && 0 <= offset && offset <= int(feedback.PacketStatusCount) && 0 <= recvDeltaIndex && recvDeltaIndex <= offset
 //@        && (acks == nil || fresh(acks))
 //@   loop 3 invariant attribution: forall j int :: 0 <= j && j < len(acks) ==> acks[j].sequenceNumber == feedback.BaseSequenceNumber + uint16(j)
+//@
+//@ # safety only (property C02)
+//@ func convertCCFB
+//@   modifies *
